@@ -2,6 +2,13 @@
 """Regenerates MANIFEST.json from the table below (kept in one place so it stays valid)."""
 import json, subprocess
 CLAIMED = {
+ "C01": dict(cat="exploration", tech="deterministic simulation: worlds built by the real builder under seeded schedules, compared with a reference model of each module's dependencies (from the generator's structured description) and a closure check over followed edges, redirects and the loader's request log",
+   text="(A) for every loaded module with a structured description the recorded dependency map equals the model's under the resolver and graph kind; (B) the graph is exactly reachable-and-closed along the edges the kind and options follow, every loader request has an entry or redirect and every redirect is recorded. Sampled by seed over import forms x media types x schemes x kinds x options; orphans left behind by an importer that turned into an error are a listed finding.",
+   note="The model never parses source text; URL joining is delegated to deno_graph::resolve_import. Same-attribute proviso enforced by the generator (source-phase imports only for targets not imported otherwise; no @ts-types on dynamic imports).", ref="DESIGN.md §3 C01"),
+ "C13": dict(cat="exploration", tech="deterministic simulation: differential between four renderings of one simulated registry (no embedded info, moduleGraph2, round-tripped moduleGraph2, moduleGraph1) crossed with per-file cache states and seeded completion orders of the deferred content loads",
+   text="The graph built through the manifest shortcut must equal the graph built by parsing the same package sources (strictly for moduleGraph2, on everything but the recomputed @deno-types range for moduleGraph1); every ModuleInfo a run produces is round-tripped through JSON. Sampled by seed.",
+   note="Embedded information is produced by the real analyser from sources that parse; the value space of ModuleInfo is the one the generated sources reach.", ref="DESIGN.md §3 C13"),
+
  "C05": dict(cat="exploration", tech="deterministic simulation: online monitor over the Loader and Locker seam histories under seeded schedules, with tampered bytes in the cache and remote tiers, plus a record-then-verify history (second build with the lockfile the first wrote)",
    text="Every loader request and every locker call of a build is checked against the monitor rules (checksum presented, retry discipline, rejected content never admitted, checksummed redirects rejected, new checksums recorded exactly once with the SHA-256 of the served bytes, lockfile entries never overwritten), then the unchanged world is built again with the lockfile just written. Sampled by seed over lockfile contents x tampering x load paths.",
    note="The simulated loader is honest (verifies the presented checksum against the bytes it returns); vendored manifests (lockfileChecksum) are not verified, as in the CLI. The cached-version probe is exempt from the presentation rule.", ref="DESIGN.md §3 C05"),
